@@ -194,6 +194,12 @@ def finish(prop, mod, tier, seed, specs, results, violation, t0, extra_cov=None)
 
 def cmd_replay(args):
     sys.path.insert(0, VERIF_DIR)
+    with open(args.path) as f:
+        head = json.load(f)
+    symx.setup_repo_path()
+    mod = importlib.import_module(head["harness"])
+    if getattr(mod, "CUSTOM_REPLAY", None):
+        return mod.CUSTOM_REPLAY(args.path)
     kind, msg, details, body = symx.replay_file(args.path)
     if kind is None:
         print(f"NOT-REPRODUCED ({msg}); recorded kind={body['kind']}")
